@@ -168,13 +168,37 @@ def planOfDisp (d : Disp) : SigPlan :=
 
 def sigPlan (k : PubKey) (alg : Cbor) : SigPlan := planOfDisp (sigDispatch (pubKeyKind k) alg)
 
+def Scheme.isPss : Scheme → Bool
+  | .pss _ _ _ => true
+  | _ => false
+
+/-- what `verify_signature` makes of the primitive's answer: with the regenerated flag, a `ValueError` raised by an RSA-PSS
+verification (modulus too small for the digest) is re-raised as `InvalidSignature` -/
+def sigSeen (s : Scheme) : SigOutcome → SigOutcome
+  | .valid => .valid
+  | .invalid => .invalid
+  | .raised c => if pssValueErrorIsInvalid && s.isPss && c == "ValueError" then .invalid else .raised c
+
+@[simp] theorem sigSeen_valid (s : Scheme) : sigSeen s .valid = .valid := rfl
+@[simp] theorem sigSeen_invalid (s : Scheme) : sigSeen s .invalid = .invalid := rfl
+theorem sigSeen_raised_cases (s : Scheme) (c : String) :
+    sigSeen s (.raised c) = .invalid ∨ sigSeen s (.raised c) = .raised c := by
+  by_cases h : (pssValueErrorIsInvalid && s.isPss && c == "ValueError") = true
+  · exact Or.inl (by simp only [sigSeen, h, if_true])
+  · exact Or.inr (by simp only [sigSeen, h]; rfl)
+theorem sigSeen_eq_valid {s : Scheme} {r : SigOutcome} : sigSeen s r = .valid ↔ r = .valid := by
+  cases r with
+  | valid => simp
+  | invalid => simp
+  | raised c => rcases sigSeen_raised_cases s c with h | h <;> simp [h]
+
 /-- `verify_signature(...)` inside `try: … except InvalidSignature: raise onInvalid` -/
 def verifySignature (k : PubKey) (alg : Cbor) (sig data : Bytes) (onInvalid : Err) : M Unit :=
   match sigPlan k alg with
   | .fail e => throw e
   | .verify s => do
     let r ← sigVerifyM k s sig data
-    match r with
+    match sigSeen s r with
     | .valid => pure ()
     | .invalid => throw onInvalid
     | .raised c => throw (nonlibErr c "verify_signature.raised")
